@@ -267,6 +267,34 @@ func (w *World) replay(u *UnitResult, o *Obligation, outPath string) *ReplayResu
 			}
 		}
 		tb.WriteString("\t_ = hasPanicsIff\n")
+		// the inputs must also satisfy the type invariants the proof assumed for them (a model the solver invented
+		// for an object the engine only knows by its invariant is not a witness unless it is a well-formed object)
+		invCheck := func(name string, t types.Type) {
+			if p, ok := t.(*types.Pointer); ok {
+				t = p.Elem()
+			}
+			n, ok := t.(*types.Named)
+			if !ok || n.Obj().Pkg() == nil {
+				return
+			}
+			td := w.TypeInvs[n.Obj().Pkg().Name()+"."+n.Obj().Name()]
+			if td == nil || td.Pkg != d.Pkg {
+				return
+			}
+			for _, c := range td.Clauses {
+				if c.Kind == "invariant" && c.FnName != "" {
+					fmt.Fprintf(&tb, "\tfunc() {\n\t\tdefer func() { if r := recover(); r != nil { pre = false; say(\"input %s is not a well-formed %s (invariant cannot be evaluated: %%v)\", r) } }()\n\t\tif %s != nil && !%s(%s) { pre = false; say(\"input %s does not satisfy the type invariant of %s\") }\n\t}()\n", name, n.Obj().Name(), name, c.FnName, name, name, n.Obj().Name())
+				}
+			}
+		}
+		if sig.Recv() != nil {
+			invCheck(recvName, sig.Recv().Type())
+		}
+		for i := 0; i < sig.Params().Len(); i++ {
+			if pn := sig.Params().At(i).Name(); pn != "" && pn != "_" {
+				invCheck(pn, sig.Params().At(i).Type())
+			}
+		}
 		call := d.Name + "(" + strings.Join(argNames, ", ") + ")"
 		if sig.Recv() != nil {
 			call = recvName + "." + fd.Name.Name + "(" + strings.Join(argNames, ", ") + ")"
